@@ -18,7 +18,34 @@ import time
 import types
 import zipfile
 
-NX, NY = 4, 2          # grid: 4 x 2 = 8 cases
+NX, NY = 4, 2          # default grid: 4 x 2 = 8 cases
+DIMS = {"list": (4, 2), "tuple": (4, 2), "empty_tuple": (4, 2), "grid3": (3, 2, 2)}     # grid3: 3 x 2(log) x 2 = 12 cases (two-digit case numbers)
+
+
+def dims(kind):
+    return DIMS[kind]
+
+
+def ncase(kind):
+    n = 1
+    for d in dims(kind):
+        n *= d
+    return n
+
+
+def axes(kind):
+    """the values of every axis, in grid order"""
+    if kind == "grid3":
+        return [sorted([-1.0, 1.0, 0.25]), list(YV), [0.0, 3.0]]
+    return [xvals(kind), list(YV)]
+
+
+def unravel(case, kind):
+    idx = []
+    for d in reversed(dims(kind)):
+        case, r = divmod(case, d)
+        idx.append(r)
+    return tuple(reversed(idx))
 
 
 def grid_inputs(kind):
@@ -31,9 +58,13 @@ def grid_inputs(kind):
         x = MultiprocessingInput('x', 'X', -1, 1, 'linear', (-3e-07, 0.5), 2)
     elif kind == "empty_tuple":
         x = MultiprocessingInput('x', 'X', -1, 1, 'linear', tuple(), 4)
+    elif kind == "grid3":
+        x = MultiprocessingInput('x', 'X', -1, 1, 'linear', (0.25,), 2)
     else:
         raise ValueError(kind)
     y = MultiprocessingInput('y', 'Y', 1, 2, 'log', [] if kind == "list" else tuple(), 2)
+    if kind == "grid3":
+        return (x, y, MultiprocessingInput('z', 'Z', 0, 3, 'linear', tuple(), 2))
     return (x, y)
 
 
@@ -49,14 +80,24 @@ def xvals(kind):
 YV = [10.0, 100.0]
 
 
+def combine(vals):
+    v = vals[0] * 1000.0 + vals[1]
+    if len(vals) > 2:
+        v += vals[2] * 1.0e6
+    return v
+
+
 def expected_value(case, kind):
-    i, j = divmod(case, NY)
-    return xvals(kind)[i] * 1000.0 + YV[j]
+    ax = axes(kind)
+    return combine([ax[d][i] for d, i in enumerate(unravel(case, kind))])
 
 
-def case_of_index(idx):
+def case_of_index(idx, kind="list"):
     idx = tuple(int(k) for k in idx)
-    return idx[0] * NY + idx[1]
+    c = 0
+    for d, i in zip(dims(kind), idx):
+        c = c * d + i
+    return c
 
 
 class Ctx:
@@ -228,7 +269,8 @@ def make_study(ctx):
     delays = ctx.scen.get("delays", {})
     counter_dir = os.path.join(ctx.root, "counters")
 
-    def study(dir_, x, y, xname, yname):
+    def study(dir_, *args):
+        vals = [float(v) for v in args[:len(args) // 2]]
         c = case_from_path(dir_)
         fd = os.open(os.path.join(counter_dir, str(c)), os.O_WRONLY | os.O_APPEND | os.O_CREAT, 0o644)
         os.write(fd, b"x")
@@ -240,7 +282,7 @@ def make_study(ctx):
             ctx.emit("WExec", c, ok=False)
             raise RuntimeError("case %d fails by construction" % c)
         ctx.emit("WExec", c, ok=True)
-        return {"val": x * 1000.0 + y, "xy": [x, y]}
+        return {"val": combine(vals), "xy": vals}
     return study
 
 
@@ -253,8 +295,8 @@ def normalise_results(res, kind):
             cn, idx, val, typ = r.case_number, r.input_index, r.result, "MultiprocessingOutput"
         else:
             cn, idx, val, typ = r[0], r[1], r[2], type(r).__name__
-        case = case_of_index(idx)
-        if not (0 <= case < NX * NY) or len(tuple(idx)) != 2 or not (0 <= int(idx[0]) < NX and 0 <= int(idx[1]) < NY):
+        case = case_of_index(idx, kind)
+        if not (0 <= case < ncase(kind)) or len(tuple(idx)) != len(dims(kind)) or not all(0 <= int(i) < d for i, d in zip(idx, dims(kind))):
             out.append({"cn": int(cn), "case": int(case), "val": "Phantom", "type": typ})
             continue
         if val is None:
@@ -263,8 +305,8 @@ def normalise_results(res, kind):
             try:
                 v = float(np.asarray(val["val"]))
                 xy = [float(t) for t in np.asarray(val["xy"]).ravel()]
-                i, j = divmod(case, NY)
-                ok = (v == expected_value(case, kind)) and xy == [xvals(kind)[i], YV[j]]
+                ax = axes(kind)
+                ok = (v == expected_value(case, kind)) and xy == [ax[d][i] for d, i in enumerate(unravel(case, kind))]
                 vc = "F" if ok else "Bad"
             except Exception as ex:       # noqa
                 vc = "Bad"
@@ -272,7 +314,7 @@ def normalise_results(res, kind):
     return out
 
 
-def snapshot(root):
+def snapshot(root, kind="list"):
     import numpy as np
     sd = os.path.join(root, "study")
     hdr = "none"
@@ -282,7 +324,7 @@ def snapshot(root):
         hdr = "full" if ('------Inputs Below------\n' in txt and '\n------------\n' in txt) else "partial"
     cases = {}
     phantom = []
-    for c in range(NX * NY):
+    for c in range(ncase(kind)):
         cases[c] = {"dir": False, "marker": False, "res": "none", "err": False}
     if os.path.isdir(sd):
         for d in os.listdir(sd):
@@ -307,7 +349,7 @@ def snapshot(root):
                     s["res"] = "partial"
     cnt = {}
     cd = os.path.join(root, "counters")
-    for c in range(NX * NY):
+    for c in range(ncase(kind)):
         p = os.path.join(cd, str(c))
         cnt[c] = os.path.getsize(p) if os.path.isfile(p) else 0
     return {"hdr": hdr, "dir": [cases[c]["dir"] for c in sorted(cases)],
@@ -411,7 +453,7 @@ def run_scenario(scen, outroot):
             if not group_alive(pid):
                 break
             time.sleep(0.002)
-        snap = snapshot(root)
+        snap = snapshot(root, scen["kind"])
         if os.WIFSIGNALED(status):
             statuses.append("killed")
             append_event(root, dict({"inc": inc, "pid": 0, "seq": 0, "ev": "Crash"}, **snap))
@@ -427,7 +469,7 @@ def run_scenario(scen, outroot):
                 with open(os.path.join(root, "traceback_%d.txt" % inc), "w") as f:
                     f.write(oc.get("tb", ""))
     events = [json.loads(l) for l in open(os.path.join(root, "events.ndjson")) if l.strip()]
-    trace = dict(scen, statuses=statuses, events=events)
+    trace = dict(scen, statuses=statuses, events=events, ncase=ncase(scen["kind"]))
     with open(os.path.join(root, "trace.json"), "w") as f:
         json.dump(trace, f)
     return trace
